@@ -29,9 +29,14 @@ MCSinkPats  == { <<Tok("lit", <<47>>)>>,                                        
                  \*  /a(?:/(?P<id>\d+))?/(?P<x>[^/]+)   a named group inside an optional non-capturing group
                  <<Tok("lit", <<47, 97>>), Tok("optndig", <<47, 124, 105, 100>>), Tok("lit", <<47>>), Tok("seg", <<120>>)>>,
                  \*  /a(/(?P<id>\d+))?                 ... inside an optional capturing group, trailing
-                 <<Tok("lit", <<47, 97>>), Tok("optcdig", <<47, 124, 105, 100>>)>> }
+                 <<Tok("lit", <<47, 97>>), Tok("optcdig", <<47, 124, 105, 100>>)>>,
+                 \*  re.compile('/a/(?P<id>\d+)', re.I)   the same pattern as the third one, with IGNORECASE: also /A/1
+                 <<Tok("flags", <<105>>), Tok("lit", <<47, 97, 47>>), Tok("digits", <<105, 100>>)>>,
+                 \*  re.compile('/(a|b)/(\d+)', re.I)      unnamed groups only, IGNORECASE
+                 <<Tok("flags", <<105>>), Tok("lit", <<47>>), Tok("ualt", <<97, 124, 98>>), Tok("lit", <<47>>), Tok("udigits", <<>>)>> }
 (* the re-registration instance: every 3-call history over these (A, B, A with an overlapping B in between) *)
-RSinkPats   == { <<Tok("lit", <<47>>)>>, <<Tok("lit", <<47, 97>>)>>, <<Tok("lit", <<47, 97, 47>>), Tok("digits", <<105, 100>>)>> }
+RSinkPats   == { <<Tok("lit", <<47>>)>>, <<Tok("lit", <<47, 97>>)>>, <<Tok("lit", <<47, 97, 47>>), Tok("digits", <<105, 100>>)>>,
+                 <<Tok("flags", <<105>>), Tok("lit", <<47, 97, 47>>), Tok("digits", <<105, 100>>)>> }
 RStaticPrefixes == { <<47, 97>> }
 StaticSpellings == {[prefix |-> p, sl |-> b] : p \in StaticPrefixes, b \in BOOLEAN} \ {[prefix |-> <<47, 97, 47, 98>>, sl |-> TRUE]}
 MCStaticPrefixes == { <<47, 97>>, <<47, 97, 47, 98>> }                            \*  /a   /a/b
@@ -57,17 +62,22 @@ MCPaths == {PathOf(ss) : ss \in UNION {[1..k -> Segs] : k \in 1..2}}
                   PathOf(<<<<97>>, <<98>>, <<49>>>>),     \*  /a/b/1
                   PathOf(<<<<97>>, <<98>>, <<>>>>),       \*  /a/b/
                   PathOf(<<<<97>>, <<>>, <<98>>>>),       \*  /a//b
-                  PathOf(<<<<>>, <<97>>, <<98>>>>) }      \*  //a/b
+                  PathOf(<<<<>>, <<97>>, <<98>>>>),       \*  //a/b
+                  \* the other case: match only thanks to IGNORECASE
+                  PathOf(<<<<65>>>>), PathOf(<<<<65>>, <<49>>>>), PathOf(<<<<65>>, <<98>>>>), PathOf(<<<<65>>, <<49>>, <<98>>>>),
+                  PathOf(<<<<97>>, <<66>>>>) }            \*  /A  /A/1  /A/b  /A/1/b  /a/B
 (* reduced pools for the quick exhaustive two-call export *)
 QTemplates == { <<Lit(<<97>>), Var(<<120>>)>>, <<Lit(<<97>>), Lit(<<98>>)>>, <<Var(<<121>>)>> }    \*  /a/{x}  /a/b  /{y}
 QMethods   == {"GET", "OPTIONS"}
 QPaths     == { PathOf(<<<<97>>>>), PathOf(<<<<98>>>>), PathOf(<<<<97, 98>>>>), PathOf(<<<<>>>>),
                 PathOf(<<<<97>>, <<98>>>>), PathOf(<<<<97>>, <<49>>>>), PathOf(<<<<97>>, <<>>>>), PathOf(<<<<49>>, <<98>>>>),
                 PathOf(<<<<97, 98>>, <<98>>>>), PathOf(<<<<97>>, <<98>>, <<49>>>>), PathOf(<<<<97>>, <<49>>, <<98>>>>),
-                PathOf(<<<<97>>, <<98>>, <<>>>>), PathOf(<<<<97>>, <<>>, <<98>>>>), PathOf(<<<<>>, <<97>>, <<98>>>>) }
+                PathOf(<<<<97>>, <<98>>, <<>>>>), PathOf(<<<<97>>, <<>>, <<98>>>>), PathOf(<<<<>>, <<97>>, <<98>>>>),
+                PathOf(<<<<65>>, <<49>>>>), PathOf(<<<<65>>, <<98>>>>) }
 RMethods == {"GET", "OPTIONS"}
 RPaths   == { PathOf(<<<<97>>>>), PathOf(<<<<97>>, <<>>>>), PathOf(<<<<97>>, <<49>>>>), PathOf(<<<<97>>, <<98>>>>),
-              PathOf(<<<<97>>, <<49>>, <<98>>>>), PathOf(<<<<97, 98>>>>), PathOf(<<<<98>>>>), PathOf(<<<<97>>, <<>>, <<98>>>>) }
+              PathOf(<<<<97>>, <<49>>, <<98>>>>), PathOf(<<<<97, 98>>>>), PathOf(<<<<98>>>>), PathOf(<<<<97>>, <<>>, <<98>>>>),
+              PathOf(<<<<65>>, <<49>>>>), PathOf(<<<<65>>>>) }
 OneTemplate == { <<Lit(<<97>>), Var(<<120>>)>> }     \*  /a/{x}
 FewPaths == { PathOf(<<<<97>>>>), PathOf(<<<<97>>, <<98>>>>), PathOf(<<<<98>>>>) }
 
